@@ -76,7 +76,9 @@ def run(ctx):
                   "ev_spk", "gen_l2_advertisement_selects_this_node", "gen_l2_advertisement_with_interface_list_selects_this_node",
                   "elig_services_expected_over_bgp", "multi_histories", "multi_contested_elections", "multi_dual_address_services",
                   "stack_histories", "stack_steps_with_same_named_services", "stack_services_expected_over_bgp",
-                  "stack_shared_configuration_checks", "stack_events_without_reload"):
+                  "stack_shared_configuration_checks", "stack_events_without_reload",
+                  "stack_gen_condition_appears_true", "stack_gen_true_condition_disappears", "stack_gen_condition_false_to_true", "stack_gen_condition_true_to_false",
+                  "stack_l2_elections_under_local_policy"):
             if st.get(k, 0) == 0:
                 raise vlib.Broken("generator degenerate: counter %r is zero: %r" % (k, st))
 
